@@ -65,8 +65,8 @@ func (h HelperContext) BlockWith(hc hctx.Context) (string, error) {
 
 	i, err := cc.evalBlockStatement(h.block)
 	if err != nil {
-		if blockFailureOf(err, cc.program) == nil && cc.curStmt != nil {
-			err = &blockFailure{stmt: cc.curStmt, program: cc.program, err: err}
+		if blockFailureOf(err, cc.run) == nil && cc.curStmt != nil {
+			err = &blockFailure{stmt: cc.curStmt, run: cc.run, err: err}
 		}
 		return "", err
 	}
@@ -93,9 +93,9 @@ func (h HelperContext) BlockWith(hc hctx.Context) (string, error) {
 // blockFailure carries the statement of a helper's block at which evaluation
 // failed, so that the error is reported at the line of that statement.
 type blockFailure struct {
-	stmt    ast.Statement
-	program *ast.Program
-	err     error
+	stmt ast.Statement
+	run  *int // the execution the statement was evaluated by
+	err  error
 }
 
 func (e *blockFailure) Error() string { return e.err.Error() }
@@ -103,14 +103,15 @@ func (e *blockFailure) Error() string { return e.err.Error() }
 func (e *blockFailure) Unwrap() error { return e.err }
 
 // blockFailureOf finds in err's chain the innermost failing statement recorded
-// for a block of the given program.
-func blockFailureOf(err error, program *ast.Program) ast.Statement {
+// for a block evaluated by the given execution (a partial, or a stored block
+// of an earlier render, may run the very same parsed program).
+func blockFailureOf(err error, run *int) ast.Statement {
 	for err != nil {
 		var bf *blockFailure
 		if !errors.As(err, &bf) {
 			return nil
 		}
-		if bf.program == program {
+		if run != nil && bf.run == run {
 			return bf.stmt
 		}
 		err = bf.err
